@@ -35,6 +35,33 @@ sys.exit(1 if bad else 0)
 '''
 
 
+REPLAY_RANGE = '''
+# a range read returns exactly the written samples inside the range: the files in front of / behind the range contribute nothing, and the
+# first / last file of the range are filtered against it
+from vlib import build
+import numpy as np, tempfile, os, shutil, sys, warnings
+warnings.simplefilter('ignore')
+drf = build.load_pkg()
+n, d, sc, fc, k = %r
+bad = 0
+first = lambda T: -((-T * n) // d)            # first sample at or after second T
+F0 = (((k * d) // n) // fc) * fc
+for F in (F0, F0 + fc, F0 + 2 * fc):
+    a, b, e = first(F) - 1, first(F), first(F + fc)
+    if e - b < 2: continue
+    top = tempfile.mkdtemp(); md = os.path.join(top, 'md'); os.makedirs(md)
+    w = drf.DigitalMetadataWriter(md, sc, fc, n, d, 'md')
+    ks = [a, b, b + 1, e, first(F + 2 * fc)]
+    w.write(ks, [{'v': i} for i in range(len(ks))])
+    r = drf.DigitalMetadataReader(md)
+    for (q0, q1, want) in ((b + 1, e, [b + 1, e]), (b + 1, e - 1, [b + 1]), (b, e, [b, b + 1, e]), (b + 1, first(F + 2 * fc) - 1, [b + 1, e])):
+        got = list(r.read(q0, q1).keys())
+        if got != want: print('rate %%d/%%d cadences %%d/%%d: read(%%d, %%d) returned %%s, written samples in range %%s' %% (n, d, sc, fc, q0, q1, got, want)); bad = 1
+    shutil.rmtree(top)
+sys.exit(1 if bad else 0)
+'''
+
+
 def _env(n, d, sc, fc, k0, k1):
     return {'self._file_cadence_secs': fc, 'self._subdir_cadence_secs': sc, 'self._samples_per_second': astnum.ld_const(n, d),
             'self._sample_rate_numerator': n, 'self._sample_rate_denominator': d, 'sample0': k0, 'sample1': k1}
@@ -95,24 +122,41 @@ def check_cfg(n, d, sc, fc, st, wfn, rfn):
         inner = next(l for l in ast.walk(outer) if isinstance(l, ast.For) and l is not outer)
         DIR = (MF / sc) * sc
         a, b, c = (astnum.ev(x, cx) for x in outer.iter.args)
-        cx.env[outer.target.id] = DIR
-        # simple local assignments of the loop body that the arange / mask expressions may refer to (evaluated in source order)
-        for st_ in outer.body:
-            if isinstance(st_, ast.Assign) and len(st_.targets) == 1 and isinstance(st_.targets[0], ast.Name) and st_.value is not ar and st_.value is not mask and st_.value is not fmt:
-                try: cx.env[st_.targets[0].id] = astnum.ev(st_.value, cx)
-                except astnum.Unsupported: pass
-        a2, b2, c2 = (astnum.ev(x, cx) for x in ar.args)
-        def evf(node):
-            if isinstance(node, ast.Compare):
-                l_, r_ = evf(node.left), evf(node.comparators[0]); op = type(node.ops[0])
-                return {ast.GtE: l_ >= r_, ast.Gt: l_ > r_, ast.LtE: l_ <= r_, ast.Lt: l_ < r_}[op]
-            cx.env[arr_name] = MF; cx.env[inner.target.id] = MF
-            return astnum.ev(node, cx)
-        m1, m2 = (evf(x) for x in mask.args)
-        p = evf(fmt.right.elts[1])
+        def body_terms(dir_term, file_term):
+            """arange bounds, mask conjuncts and formatted timestamp of the loop body for subdirectory `dir_term` and candidate file `file_term`"""
+            cx.env[outer.target.id] = dir_term
+            # simple local assignments of the loop body that the arange / mask expressions may refer to (evaluated in source order)
+            for st_ in outer.body:
+                if isinstance(st_, ast.Assign) and len(st_.targets) == 1 and isinstance(st_.targets[0], ast.Name) and st_.value is not ar and st_.value is not mask and st_.value is not fmt:
+                    try: cx.env[st_.targets[0].id] = astnum.ev(st_.value, cx)
+                    except astnum.Unsupported: pass
+            a2_, b2_, c2_ = (astnum.ev(x, cx) for x in ar.args)
+            def evf(node):
+                if isinstance(node, ast.Compare):
+                    l_, r_ = evf(node.left), evf(node.comparators[0]); op = type(node.ops[0])
+                    return {ast.GtE: l_ >= r_, ast.Gt: l_ > r_, ast.LtE: l_ <= r_, ast.Lt: l_ < r_}[op]
+                cx.env[arr_name] = file_term; cx.env[inner.target.id] = file_term
+                return astnum.ev(node, cx)
+            m1_, m2_ = (evf(x) for x in mask.args)
+            return a2_, b2_, c2_, m1_, m2_, evf(fmt.right.elts[1])
+        a2, b2, c2, m1, m2, p = body_terms(DIR, MF)
         claim = z3.And(a <= DIR, DIR < b, (DIR - a) % c == 0, a2 <= MF, MF < b2, (MF - a2) % c2 == 0, m1, m2, p == MF)
         r, m = smt.solve([s0 >= lo, s0 <= k, k <= s1, s1 <= hi] + cx.cons, [z3.Not(claim)], 120, st)
         out.append(('reader: for s0 <= k <= s1 the file <prefix>@mfile(k).h5 in subdirectory (mfile(k)//sc)*sc is a candidate', r, m[k].as_long() if r == 'sat' else None))
+        # tightness: nothing but the files of the range is a candidate (read() treats the first and the last candidate as the edge files whose
+        # samples are filtered against the range; an extra candidate in front would leave the real first file unfiltered)
+        ii, jj = z3.Ints('ii jj')
+        Dv = a + ii * c
+        ncons = len(cx.cons)
+        a2v, b2v, c2v, m1v, m2v, pv = body_terms(Dv, z3.Int('Tv'))
+        Tv = z3.Int('Tv')
+        MF0 = (((s0 * d) / n) / fc) * fc; MF1 = (((s1 * d) / n) / fc) * fc
+        listed = z3.And(ii >= 0, Dv < b, jj >= 0, Tv == a2v + jj * c2v, Tv < b2v, m1v, m2v)
+        r, m = smt.solve([s0 >= lo, s0 <= s1, s1 <= hi] + cx.cons, [listed, z3.Not(z3.And(MF0 <= Tv, Tv <= MF1, pv == Tv))], 120, st)
+        out.append(('reader: every candidate file lies between the file of the first and the file of the last requested sample (no extra candidate in front of or behind the range)',
+                    r, m[s0].as_long() + 1 if r == 'sat' else None))
+        del cx.cons[ncons:]
+        a2, b2, c2, m1, m2, p = body_terms(DIR, MF)
         r, m = smt.solve([s0 == k, s1 == k, k >= lo, k <= hi] + cx.cons, [z3.Not(z3.And(cx.env['start_ts'] == MF, cx.env['end_ts'] == MF))], 60, st)
         out.append(('reader: a single-sample query looks in exactly the file the writer uses (start == end == mfile(k))', r, m[k].as_long() if r == 'sat' else None))
     return out
@@ -150,7 +194,7 @@ def main(tier):
                    sample={'obligation': nm, 'configurations': ncfg})
         elif r == 'sat':
             rep.violation(nm, 'C13.' + nm.split(':')[0], '%s fails at rate %d/%d, cadences %ds/%ds, index %d' % ((nm,) + cfg[:5]),
-                          replay_body=REPLAY % (cfg,), bounds='rate %d/%d cadence %d/%d' % cfg[:4], sample={'config': cfg})
+                          replay_body=(REPLAY_RANGE if 'every candidate file lies between' in nm else REPLAY) % (cfg,), bounds='rate %d/%d cadence %d/%d' % cfg[:4], sample={'config': cfg})
         else:
             rep.ob(nm, 'inconclusive', detail='solver unknown at %s' % (cfg,))
     rep.extra['solver'] = {'queries': st.queries, 'seconds': round(st.seconds, 2)}
